@@ -165,6 +165,7 @@ def run(ctx):
         for i in range(6 if quick else 200):
             venv_layout_counts(ctx, vh, i)
         odd_paths(ctx)
+        same_names_everywhere(ctx, 8 if quick else 200)
     finally:
         vh.close()
 
@@ -217,6 +218,35 @@ def venv_layout_counts(ctx, vh, i):
                               {"cli": info, "references": by_name[name], "defined_in": expect[name]["rel"]}, files=files | {"outside/" + k: v for k, v in ext_files.items()})
             ctx.nontrivial(("venv_layout", expect[name]["tier"], info["count"] > 0))
     ctx.count("venv_layout_fixtures_compared", seen)
+    shutil.rmtree(base, ignore_errors=True)
+
+
+def same_names_everywhere(ctx, runs):
+    """many conftest files defining the same (unused) names, scanned by the CLI's parallel walk with injected delays: every
+    run reports every definition, once"""
+    base = ctx.scratch("same")
+    ndirs, nnames = 40, 30
+    files = {}
+    for d_ in range(ndirs):
+        files[f"p{d_:02d}/conftest.py"] = "import pytest\n\n" + "".join(f"@pytest.fixture\ndef same_{k}():\n    return {k}\n\n" for k in range(nnames))
+    write_tree(base, files)
+    want = sorted((f"p{d_:02d}/conftest.py", f"same_{k}") for d_ in range(ndirs) for k in range(nnames))
+    for k in range(runs):
+        env = {"RAYON_NUM_THREADS": "16", "VERIF_DELAY": f"{ctx.seed * 13 + k}:150000", "VERIF_SHARDS": "2"}
+        rc, out, err = run_cli(srv_bin(), ["fixtures", "unused", base, "--format", "json"], env=env)
+        ctx.judged()
+        try:
+            got = sorted((x["file"], x["fixture"]) for x in json.loads(out))
+        except Exception as e:
+            ctx.violation({"kind": "json-output-invalid", "case": "same names in many files"}, {"err": str(e), "stderr": err[-300:]})
+            break
+        if got != want or rc != 1:
+            ctx.violation({"kind": "unused-report-loses-or-repeats-definitions", "run": k},
+                          {"reported": len(got), "defined": len(want), "rc": rc, "missing": [x for x in want if x not in got][:4],
+                           "repeated": sorted({x for x in got if got.count(x) > 1})[:4]})
+            break
+    ctx.nontrivial(("same_names_everywhere", runs > 0))
+    ctx.count("same_names_cli_runs", runs)
     shutil.rmtree(base, ignore_errors=True)
 
 
